@@ -22,7 +22,7 @@ from harness import impl
 from harness.props import c08
 
 PROP = 'C09'
-GENERATED = ['PhaseOrder', 'LoopFacts']
+GENERATED = ['PhaseOrder', 'LoopFacts', 'ClosureFacts']
 DRIVER = 'Drivers/C09.lean'
 DRIVER_MODULES = ['StarsimModel.Model.RunState', 'StarsimModel.Model.Loop', 'StarsimModel.Model.Proto']
 RULE = ('generated sim configurations (impl.gen_sim_config without global-generator readers, pop_scale in {1, 2.5, 10}, '
